@@ -115,17 +115,21 @@ def run(cfg, faults=None, keep_events=True, workdir=None, kill_at=None):
         ip = fsio.Interposer(d, classify, faults)
         ip.kill_at = kill_at
         saver = fileutils.atomic_save(dest, **kw)
+        # what tears the with-block down: an ordinary exception, or a BaseException that is not an Exception
+        # (Ctrl-C, sys.exit() in the body, a generator holding the block being closed)
+        body_exc = {"KeyboardInterrupt": KeyboardInterrupt, "SystemExit": SystemExit, "GeneratorExit": GeneratorExit}.get(
+            cfg.get("raise_kind", "Exception"), BodyError)
         with ip:
             try:
                 with saver as f:
                     for i, c in enumerate(chunks):
                         if cfg["raise_at"] == i:
                             body_raised = True
-                            raise BodyError("body")
+                            raise body_exc("body")
                         f.write(c)
                     if cfg["raise_at"] >= len(chunks):
                         body_raised = True
-                        raise BodyError("body")
+                        raise body_exc("body")
                     if cfg["dest_appears"]:
                         def appear():
                             with fsio.REAL_IO_OPEN(dest, "wb") as g:
